@@ -84,6 +84,17 @@ FIXED += [
   'SourceForLocalPath chose among equally long alias addresses by map iteration order (different answers for the same path)'),
 ]
 
+FIXED += [
+ ("C19", "pack-panic", "fix: whitespace-only lines and a bare '!' in .terraformignore no longer panic",
+  'a .terraformignore line holding only white space, or just "!", made Pack and the bundle builder panic (index out of range)'),
+ ("C19", "stack-exhaustion", "fix: bound the length of symlink chains followed when dereferencing",
+  'Pack with DereferenceSymlinks died of stack exhaustion on a link cycle outside the tree (x -> y, y -> x)'),
+ ("C19", "worker-hang", "fix: do not try to copy a special file reached through a dereferenced link",
+  'Pack with DereferenceSymlinks never returned on an external link to a named pipe'),
+ ("C19", "worker-hang", "fix: never open a .terraformignore that is not a regular file",
+  'Pack (ignore on) and the bundle builder never returned when .terraformignore was a named pipe or a link to one'),
+]
+
 OPEN = [
  ("C04", "dotdot-after-symlink-component",
   'a link whose target applies ".." after a component that is itself a symlink in dst (e.g. "d/l -> .." together with "m -> d/l/../secret", in either order) is accepted because targets are validated lexically; the operating system resolves m to a location outside dst. No entry can be written through such a link any more (see the fixed C01 entries), but the link itself remains'),
